@@ -125,6 +125,41 @@ func (x *Exec) special(s *State, fr *Frame, fn *types.Func, name string, recv Va
 			unsup("crc of opaque bytes")
 		}
 		return &Scalar{T: x.ctx.UF("crc$update", BV(32), recv.(*Scalar).T, x.ctx.Share(x.inner(s, "uint8", BV(8), b.Rgn)), b.Off, b.Len)}, true
+	case name == "encoding/binary.PutUvarint" && !x.opaque:
+		// Exact model (from the format: 7 bits per byte, least significant group first,
+		// high bit set on all but the last byte): n bytes are written, n in 1..10.
+		buf, ok := args[0].(*SliceV)
+		if !ok {
+			unsup("PutUvarint on a non-slice")
+		}
+		v := scalarArg(args, 1)
+		x.note("trusted", "encoding/binary.PutUvarint(buf, v): writes the 1..10 byte little-endian base-128 encoding of v into buf[0:n] and returns n; panics if buf is shorter")
+		n := I64(10)
+		for k := 9; k >= 1; k-- {
+			n = Ite(Ult(v, BVLit(1<<(7*uint(k)), 64)), I64(int64(k)), n)
+		}
+		n = x.ctx.Share(n)
+		fits := Sle(n, buf.Len)
+		if x.spec == 0 {
+			if x.top.NoPanic {
+				x.oblige(s, "index", "index@"+shortText(exprText(x.w.Fset, call)), fits, call.Pos(), "PutUvarint needs room for the encoding: "+exprText(x.w.Fset, call))
+			}
+			s.assume(fits)
+		}
+		x.noteWriteRange(s, "uint8", buf.Rgn, buf.Off, n)
+		for i := 0; i < 10; i++ {
+			grp := BVBin("bvand", BVBin("bvlshr", v, BVLit(uint64(7*i), 64)), BVLit(0x7f, 64))
+			b := Resize(grp, 8, false)
+			last := Eq(n, I64(int64(i+1)))
+			b = Ite(last, b, BVBin("bvor", b, BVLit(0x80, 8)))
+			off := x.ctx.Share(Add64(buf.Off, I64(int64(i))))
+			old := x.rd(s, "uint8", BV(8), buf.Rgn, off)
+			// (the frame obligation for buf[0:n] was generated above; positions >= n keep
+			// their value, so the store is not a write there)
+			arr := x.inner(s, "uint8", BV(8), buf.Rgn)
+			x.setInner(s, "uint8", BV(8), buf.Rgn, x.ctx.Share(Store(arr, off, x.ctx.Share(Ite(Slt(I64(int64(i)), n), b, old)))))
+		}
+		return &Scalar{T: n}, true
 	case (name == "bytes.HasPrefix" || name == "bytes.CutPrefix") && !x.opaque:
 		a, ok1 := args[0].(*SliceV)
 		p, ok2 := args[1].(*SliceV)
